@@ -72,6 +72,16 @@ def run(ctx):
         half = any((x[0] == 'call' and re.search(r'(Div|Mul).*::(div|mul|div_f64|mul_f64)$|checked_div$|div_f32$', x[1]) is not None) or (x[0] == 'call' and x[1].endswith('Duration::from_millis'))
                    for x in subexprs(m.rv)) or bool(intdiv)
         ctx.ob(half and 'server_keep_alive' in rv, 'the second operand of min is derived from the negotiated keep-alive', 'deadline|from-k', loc=m.loc())
+        # (added after the second mutation sweep) ... and it is exactly one half of it
+        exact = False
+        for x in subexprs(m.rv):
+            if x[0] == 'call' and re.search(r'(::div|checked_div)$', x[1]) and len(x[2]) == 2 and show(x[2][1]) == '2':
+                exact = True
+            if x[0] == 'call' and re.search(r'mul_f(32|64)$|::mul$', x[1]) and len(x[2]) == 2 and show(x[2][1]) in ('0.5', '0.5f64', '0.5f32'):
+                exact = True
+            if x[0] == 'call' and x[1].endswith('Duration::from_millis') and re.search(r'(Mul|MulWithOverflow) 500\b', show(x[2][0])):
+                exact = True
+        ctx.ob(exact, 'the keep-alive share of the ping deadline is K/2 (divisor 2 / factor 0.5 / K*500 ms) (%s)' % rv[60:200], 'deadline|half', loc=m.loc())
     errs = [c for c in ka.calls('GneissError::new_connection_closed')]
     ctx.ob(len(errs) == 1 and guarded_any(ka, errs[0].bb, [r'^\(self\.ping_timeout_timepoint@Some\.0 <= context\.current_time\)$']) and guarded_any(ka, errs[0].bb, [r'^self\.ping_timeout_timepoint is Some$']),
            'the connection is failed exactly when the ping deadline has been reached', 'deadline|compare', loc=ka.loc())
